@@ -1336,3 +1336,14 @@ m('M5-child-of-a-leaf-through-the-leaf-factory', 'C08', 'M5', 'PyTreeSpec::Child
 m('CL1-dataclass-flatten-reads-the-finished-loop-variable', 'C19', 'CL1', '_register_dataclass/flatten_func reads f', 'optree/dataclasses.py',
   """        metadata = tuple((name, getattr(obj, name)) for name in metadata_fields)""",
   """        metadata = tuple((name, getattr(obj, f.name)) for name in metadata_fields)""")
+m('T10-subclasscheck-asks-about-the-stub-itself', 'C18', 'T10', 'StructSequenceMeta.__subclasscheck__/hands-on-the-candidate', 'optree/typing.py',
+  """        return is_structseq_class(subclass)""",
+  """        return is_structseq_class(cls)""")
+m('T10-structseq-instance-asks-the-namedtuple-recogniser', 'C02', 'T10', 'IsStructSequenceInstance/asks-the-class-of-the-object', 'include/optree/pytypes.h',
+  """    return IsStructSequenceClass(py::type::handle_of(object));""",
+  """    return IsNamedTupleClass(py::type::handle_of(object));""")
+m('T10-is-namedtuple-bound-to-the-instance-form', 'C18', 'T10', '_C.is_namedtuple/bound', 'src/optree.cpp',
+  """        .def("is_namedtuple",
+             &IsNamedTuple,""",
+  """        .def("is_namedtuple",
+             &IsNamedTupleInstance,""")
